@@ -164,7 +164,7 @@ pub fn record(args: &Args) -> i32 {
             out.flush().unwrap();
             let iso = isolated(8 << 30, 120, || {
                 let mut o = vec![0u8];
-                match preflate_rs::recreated_zlib_chunks(&mut std::io::Cursor::new(&c), &mut o) { Ok(()) => o, Err(_) => vec![1u8] }
+                match preflate_rs::recreated_zlib_chunks(&mut std::io::Cursor::new(&c), &mut o) { Ok(_) => o, Err(_) => vec![1u8] }
             });
             let (rres, back): (&str, Option<Vec<u8>>) = match &iso {
                 Ok(v) if v.first() == Some(&0) => ("ok", Some(v[1..].to_vec())),
